@@ -30,7 +30,12 @@ META = {
                 'callers; more than 2 concurrent consumer calls / 3 report parts; the 50-entry bound of the consumer buffer '
                 '(a final report that is pushed out by 50 younger parts before the response is processed is lost by design)',
                 'a consumer Future for a response with a failing state never includes reports that arrive after the response '
-                '(it is completed by the response itself)'],
+                '(it is completed by the response itself); whether a Fail RESPONSE carries error information (only "Fail with '
+                'error information in the response or in a report of the transaction" is demanded: in direct mode the library puts '
+                'it into the report only, and the consumer result of a Fail response then has no error text)',
+                'that a queued operation reports the duplicate Wait, that a direct operation sends a report at all (the end-to-end '
+                'obligations demand only that the consumer handle completes), order of transactions among each other',
+                'operations whose handler returns a non-final state or None; a worker that was never started (_worker is None)'],
     'assumptions': ['consumer two-call obligations: the two responses carry different transaction ids (guaranteed by the provider part)',
                     'handlers return one of the final invocation states or raise (contract of ExecuteResult)'],
 }
@@ -126,10 +131,13 @@ def obligations(tier):
                       bounds=bounds + '; transaction ids of response and parts unconstrained in N; ' + pool_txt + (lean_txt if lean else '')))
     cases = [(1, None), (2, None)] + [(3, p) for p in range(4)] if quick else \
         [(n, p) for n in (1, 2, 3) for p in range(n + 1)]
+    RESP = ('Wait', 'Start', 'Fin', 'FinMod')
     for n, pos in cases:
-        one(f'C09.consumer.one.n{n}' + ('' if pos is None else f'.pos{pos}'), {'n': n, 'rf': False} | ({} if pos is None else {'pos': pos}),
-            f'1 call with a non-failing response state, {n} report(s) of one part each, response critical section after '
-            f'{"any number" if pos is None else pos} of them', lean=(n == 3))
+        for r in (range(4) if (n == 3 and not quick) else (None,)):      # thorough, n = 3: one process per response state
+            one(f'C09.consumer.one.n{n}' + ('' if pos is None else f'.pos{pos}') + ('' if r is None else f'.resp_{RESP[r]}'),
+                {'n': n, 'rf': False} | ({} if pos is None else {'pos': pos}) | ({} if r is None else {'r': r}),
+                f'1 call with {"a non-failing response state" if r is None else "response state " + RESP[r]}, {n} report(s) of one part '
+                f'each, response critical section after {"any number" if pos is None else pos} of them', lean=(n == 3))
     if quick:
         one('C09.consumer.one.failing_response', {'rf': True}, '1 call whose response state is Fail, 1-3 reports of one part each, every '
                                                                'position of the response', lean=True)
@@ -145,20 +153,23 @@ def obligations(tier):
     for early in (True, False):
         for n in ((2,) if quick else (2, 3)):
             lean = n == 3
-            obs.append(Ob(f'C09.consumer.multi_part.{"early" if early else "late"}' + ('' if quick else f'.n{n}'), 'harness.C09',
-                          'consumer_multi_part', bind={'n': n, 'early': early, 'pool': pool, 'lean': lean, 'rf': False}, timeout=t,
-                          functions=FC, stubs=STUBS_CONSUMER,
-                          bounds=f'1 call (non-failing response), ONE report with {n} parts (ids/states unconstrained) '
-                                 f'{"before" if early else "after"} the response; ' + pool_txt + (lean_txt if lean else ''),
-                          claim='same, for several parts handled in one critical section'))
+            for r in (range(4) if n == 3 else (None,)):
+                obs.append(Ob(f'C09.consumer.multi_part.{"early" if early else "late"}' + ('' if quick else f'.n{n}')
+                              + ('' if r is None else f'.resp_{RESP[r]}'), 'harness.C09', 'consumer_multi_part',
+                              bind={'n': n, 'early': early, 'pool': pool, 'lean': lean, 'rf': False} | ({} if r is None else {'r': r}),
+                              timeout=t, functions=FC, stubs=STUBS_CONSUMER,
+                              bounds=f'1 call ({"non-failing response" if r is None else "response " + RESP[r]}), ONE report with {n} parts '
+                                     f'(ids/states unconstrained) {"before" if early else "after"} the response; ' + pool_txt
+                                     + (lean_txt if lean else ''),
+                              claim='same, for several parts handled in one critical section'))
     # ---- consumer, two calls in flight
     two = [(1, None, None)] + [(n, pa, pb) for n in ((2,) if quick else (2, 3)) for pb in range(n + 1) for pa in range(pb + 1)]
     for n, pa, pb in two:
         lean = n >= 2
         obs.append(Ob(f'C09.consumer.two.n{n}' + ('' if pa is None else f'.a{pa}.b{pb}'), 'harness.C09', 'consumer_two_calls',
-                      bind={'n': n, 'pool': 4 if n == 3 else pool, 'lean': lean, 'nresp': 2 if lean else 7}
+                      bind={'n': n, 'pool': 4 if n == 3 else pool, 'lean': lean, 'nresp': (7, 7, 2, 1)[n]}
                       | ({} if pa is None else {'pa': pa, 'pb': pb}), timeout=t, functions=FC, stubs=STUBS_CONSUMER,
-                      bounds=f'2 calls in flight (ids ta != tb, response states {"Wait / Fin" if lean else "any non-failing"}), {n} report '
+                      bounds=f'2 calls in flight (ids ta != tb, response states {("", "any non-failing", "Wait / Fin", "Wait")[n]}), {n} report '
                              f'part(s) with unconstrained ids; ' + ('every pair of response positions' if pa is None else
                                                                     f'A\'s response section after {pa}, B\'s after {pb} reports')
                              + '; ' + (pool_txt if n < 3 else 'states from {Wait, Start, Fin, Fail}') + (lean_txt if lean else ''),
